@@ -175,7 +175,7 @@ def main():
                     break
         else:
             rng = random.Random(f"{a.seed}/{sname}/{a.wid}")
-            quota = s.quick if a.tier == "quick" else s.thorough
+            quota = s.quick if a.tier == "quick" else s.thorough * int(os.environ.get("VERIF_THOROUGH_X", "6"))
             quota = max(1, quota // a.nworkers)
             done = 0
             attempts = 0
